@@ -23,6 +23,7 @@ from collections import Counter
 from codec import *  # noqa
 import schema_oracle as O
 import schemaof as SO
+import srccover
 
 PID = 'C08'
 import os
@@ -117,6 +118,10 @@ def run(tier, seed, t0):
     classes = Counter()
     cat = catmod.catalogue_types()
     tmap = dict(cat)
+    # the implementors of BorshSchema as the compiler lists them vs the model's universe
+    cst, cdis = srccover.stage(('BorshSchema',), cat, rust)
+    stats.update(cst)
+    disagreements += cdis
     rng = random.Random(seed * 31 + 8)
     if exe is None:
         return conclude(PID, tier, seed, t0, coq, stats, disagreements, failures)
